@@ -95,12 +95,12 @@ CLAIMS = {
    note="Trusted: the reference decoder in harness/refcbor; cid.Cast defines CID validity; inputs stay far inside the resource limits so those never decide."),
  "C04": dict(
    category="exploration", design_ref="DESIGN.md §5 C04",
-   technique="property-based round-trip and metamorphic testing (rapid): decode(encode(v)) vs the abstract value with kinds, byte-identical output across insertion orders and implementations, key order and JSON validity checked with the standard library tokenizer",
+   technique="property-based round-trip and metamorphic testing (rapid): decode(encode(v)) vs the abstract value with kinds, byte-identical output across insertion orders and implementations, key order and JSON validity checked with the standard library tokenizer; thorough tier adds native coverage-guided fuzzing (go test -fuzz) whose inputs, parsed into values, feed the same check",
    text="Generated DAG-JSON-expressible values (reserved shapes excluded by construction at every level) are encoded from a permuted insertion order, a drawn builder program and implementation; output must be identical to the default build's output, valid JSON with ascending bytewise keys at every level, and decode (into basicnode and the source implementation) to the key-sorted value with identical kinds; the plain json codec must round-trip in insertion order and refuse bytes/links. One known finding (integral floats) is listed and steered around.",
    note="Trusted: encoding/json tokenizer for validity and key order; abstract value model. Known finding C04-integral-float excluded by construction (counted in excluded_known)."),
  "C02": dict(
    category="exploration", design_ref="DESIGN.md §5 C02",
-   technique="property-based differential testing (rapid) against an independent reference canonical DAG-CBOR encoder, plus permutation/implementation metamorphic relations and a completely enumerated head-size boundary table",
+   technique="property-based differential testing (rapid) against an independent reference canonical DAG-CBOR encoder, plus permutation/implementation metamorphic relations and a completely enumerated head-size boundary table; thorough tier adds native coverage-guided fuzzing (go test -fuzz) whose inputs, decoded by the reference decoder, feed the same check",
    text="Generated values (all kinds, uint64 above int64, arbitrary byte keys, every CID shape) are built with a drawn insertion order, builder program and node implementation; Encode must equal the reference canonical encoder byte for byte, EncodedLength must equal the byte count, Decode must return the value in canonical order, the registered multicodec encoder must agree, and the plain cbor codec must emit the order-preserving encoding and refuse links. Head-size boundaries are enumerated completely. Exploration only: absence of a counterexample in the generated space, not a proof.",
    note="Trusted: Go toolchain, rapid, the ~200-line reference encoder/decoder in harness/refcbor (itself compared with the implementation on every case), go-cid for CID well-formedness of generated links."),
 }
